@@ -300,6 +300,48 @@ def gen_hashpair_cases(ctx, tg, n):
     return cases
 
 
+# ---- references inside plain Python containers placed in operand slots ---------------------------
+def gen_packed_cases(ctx, n):
+    """r['M'][r['i'], r['j']] (tuple key holding references), slice keys, tuples / lists / dicts of
+    references as call arguments, builtin parameters and operands.  The library does not evaluate
+    (nor report) such nested references; whatever it DOES evaluate must be reported: judged by the
+    perturbation oracle (a location whose change moves the value is a reported dependency)."""
+    rng = ctx.rng
+    c = rs.TOP["c"]
+    it = lambda k: ["item", c, ["val", rs.Sx(k)]]
+    cases = []
+    for j in range(n):
+        st = gen_state(rng, safe=True)
+        cd = st[0][1][1]
+        cd.append([rs.Sx("j"), rs.I(rng.choice([0, 1, 2]))])
+        cd.append([rs.Sx("M"), ["arr", "int64", [3, 3], [rs.I(rng.randint(-9, 9)) for _ in range(9)]]])
+        cd.append([rs.Sx("D"), ["d", [[["t", [rs.I(a), rs.I(b)]], rs.I(rng.randint(-9, 9))] for a in range(3) for b in range(3)]]])
+        cd.append([rs.Sx("f2"), ["fn", 2]])
+        ij = lambda: rng.choice([it("i"), it("j"), ["bin", "OMod", ["bin", "OAdd", it("i"), it("j")], rs.val(3)]])
+        pack = lambda kind, xs: ["pack", kind, xs]
+        k = j % 8
+        if k == 0:
+            e = ["item", it("M"), pack("tuple", [ij(), ij()])]                      # multi-dimensional index
+        elif k == 1:
+            e = ["item", it("D"), pack("tuple", [ij(), rs.val(rng.choice([0, 1, 2]))])]   # dict with tuple keys
+        elif k == 2:
+            e = ["item", it("l"), pack("slice", [rs.val(0), ij()])]                 # slice with a reference bound
+        elif k == 3:
+            e = ["item", it("M"), pack("tuple", [pack("slice", [rs.val(0), ij()]), ij()])]    # nested: (0:i, j)
+        elif k == 4:
+            e = ["call", it("f2"), [pack("tuple", [it("a"), it("b")])], []]         # a tuple of references as argument
+        elif k == 5:
+            e = ["call", it("f2"), [it("a")], [["k", pack("tuple", [it("b"), pack("tuple", [ij()])])]]]        # (lists / dicts are unhashable: refused at build time)
+        elif k == 6:
+            e = ["call", it("h"), [it("a")], [["y", ["item", it("D"), pack("tuple", [ij(), ij()])]]]]
+        else:
+            e = ["builtin", "FDivmod", it("a"), [pack("tuple", [it("b")])]]
+        if rng.random() < 0.5 and k not in (4, 5, 7):
+            e = ["bin", rng.choice(["OAdd", "OMul", "OSub"]), e, rng.choice([it("a"), rs.val(2)])]
+        cases.append({"pexp": e, "state": st, "objattr": rs.OBJATTR, "perturb": True, "out": ["c", "out"], "oracle_only": True, "packed": k})
+    return cases
+
+
 def run_cases(cases, ids):
     classes, fns = ids
     parts = list(vlib.chunks(cases, max(1, (len(cases) + 15) // 16)))
@@ -319,7 +361,9 @@ def run(ctx):
                 "o.p.q[0] vs getattr(o,'p.q[0]'), attribute o.y vs a container labelled 'o.y', the same one level up the owner chain), side by side and "
                 "nested below other nodes, judged structurally (owner chain, key, step kind); plus pairs of locations hanging off EXPRESSION owners "
                 "(attribute / item of a binary, unary, builtin or call node, one level further down, inside a computed key) whose owners differ only in "
-                "one literal with an equal Python hash (-1/-2, 1/True/1.0, 0/False/-0.0/0.0, k/k+2**61-1); non-trivial = a (class, slot) pair holding a reference, and every perturbation case; "
+                "one literal with an equal Python hash (-1/-2, 1/True/1.0, 0/False/-0.0/0.0, k/k+2**61-1); plus references placed INSIDE plain "
+                "containers in operand slots (tuple / slice / nested keys such as M[i, j], tuples of references as call arguments and "
+                "builtin parameters), judged by the perturbation oracle whenever the expression evaluates; non-trivial = a (class, slot) pair holding a reference, and every perturbation case; "
                 "distinct by (class, slot) and by expression")
     proof_ok = vlib.standard_proof_part(ctx, "props/C05.v", allowed_axioms=(), extra_targets=["run/RunRefs.vo"], translators=["refs"])
     classes, fns, iderr = rs.ids()
@@ -331,7 +375,7 @@ def run(ctx):
     unknown_cls = [n for n in conc if n not in classes] + [n for n in concrete(info["pure"]) if n not in conc]
     tg = TermGen(ctx.rng, classes, info["compiled"])
     cases = gen_cases(ctx, tg, ctx.pick(700, 40000), ctx.pick(150, 8000)) + gen_twin_cases(ctx, tg, ctx.pick(180, 6000)) \
-        + gen_hashpair_cases(ctx, tg, ctx.pick(264, 8000))
+        + gen_hashpair_cases(ctx, tg, ctx.pick(264, 8000)) + gen_packed_cases(ctx, ctx.pick(160, 4000))
     res, unknown = run_cases(cases, ids)
     cerrs = rs.case_errors(res)
     unknown = sorted(set(unknown) | set(unknown_cls))
@@ -347,6 +391,8 @@ def run(ctx):
                 oracle_fail.append((i, b))
         if "hashpair" in c:
             ctx.nontrivial.add("hashpair:" + c["hashpair"])
+        if "packed" in c:
+            ctx.nontrivial.add(f"packed:{c['packed']}:{res['compiled'][i].get('evaluates')}")
         if "twin" in c:
             ctx.nontrivial.add(f"twin:{c['twin']}:{'perturb' if c.get('perturb') else c['term'][0]}")
         a, p = res["compiled"][i], res["pure"][i]
@@ -425,6 +471,8 @@ def run(ctx):
                                      "deps_size_hist": {str(k): sum(1 for r in okrecs if r["deps"][0] == "set" and len(r["deps"][1]) == k) for k in range(0, 12)},
                                      "twin_location_cases": sum(1 for c in cases if "twin" in c),
                                      "hash_equal_owner_pairs": sum(1 for c in cases if "hashpair" in c), "hash_equal_literal_pairs": len(HASH_EQ),
+                                     "references_inside_plain_containers_cases": sum(1 for c in cases if "packed" in c),
+                                     "of_which_evaluable": sum(1 for i, c in enumerate(cases) if "packed" in c and res["compiled"][i].get("evaluates")),
                                      "hash_equal_pairs_oracle_only_float_literals": sum(1 for c in cases if c.get("oracle_only"))}
     ctx.samples = [{"term": res["compiled"][0].get("term"), "deps": res["compiled"][0].get("deps")},
                    {"twin case": cases[-1].get("pexp") or cases[-1].get("term"), "deps": res["compiled"][-1].get("deps")}]
@@ -461,7 +509,7 @@ def run(ctx):
             what.append("node classes / functions the translator does not know (tie broken): " + ", ".join(unknown))
         if missing_cls or missing_slots:
             what.append(f"not exercised: classes {missing_cls} slots {missing_slots}")
-        extra = gen_cases(ctx, tg, 8000, 1500) + gen_twin_cases(ctx, tg, 1200) + gen_hashpair_cases(ctx, tg, 1500)
+        extra = gen_cases(ctx, tg, 8000, 1500) + gen_twin_cases(ctx, tg, 1200) + gen_hashpair_cases(ctx, tg, 1500) + gen_packed_cases(ctx, 800)
         res2, _ = run_cases(extra, ids)
         found = None
         for b in ("compiled", "pure"):
